@@ -60,6 +60,27 @@ def gen(R):
     g = 0
     nctx = R.int(1, 2)
     shared = {}  # (ctx, fn) -> holds the shared service name
+    if nctx == 2 and R.bool(1, 5):
+        # structured contest: context A owns the shared service name, context B's declaration of it is rejected, then
+        # A's function goes away - the name must go with it
+        a_, b_ = R.shuffle(list(CTXS[:2]))
+        kinds = sorted({x for x in KINDS if R.bool()} | {"event"}, key=KINDS.index) + ["shared"]
+        g += 1
+        ops.append({"op": "define", "ctx": a_, "fn": "f1", "gen": g, "kinds": kinds, "extra": []})
+        g += 1
+        ops.append({"op": "define", "ctx": b_, "fn": "f1", "gen": g, "kinds": ["shared"], "extra": []})
+        how = R.choice(["del", "rebind", "redefine", "reload", "delete_file"])
+        if how in ("del", "rebind"):
+            ops.append({"op": how, "ctx": a_, "fn": "f1"})
+        elif how == "redefine":
+            g += 1
+            ops.append({"op": "define", "ctx": a_, "fn": "f1", "gen": g, "kinds": ["event"], "extra": []})
+        elif how == "reload":
+            g += 2
+            ops.append({"op": "reload", "ctx": a_, "gen": g, "kinds": ["state"], "extra": [], "dead": None})
+        else:
+            ops.append({"op": "delete_file", "ctx": a_})
+        ops.append({"op": R.choice(["occ_service", "occ_event"])})
     for _ in range(R.int(3, 14)):
         ctx = R.choice(CTXS[:nctx])
         k = R.weighted([(6, "define"), (2, "define_race"), (2, "del"), (1, "rebind"), (3, "cont_add"), (2, "cont_remove"), (1, "reload"), (1, "reload_fast"), (2, "load_race"), (1, "delete_file"),
